@@ -669,6 +669,159 @@ def mon_C06(run):
     return bad[:1]
 
 
+class URun:
+    """bookkeeping for unmanaged-pool traces"""
+
+    def __init__(self, trace):
+        self.t = trace
+        self.cfg = cfg_of(trace)
+        self.max0 = int(self.cfg.get("max", 0))
+        self.init = int(self.cfg.get("init", 0))
+        self.rt = self.cfg.get("rt") == "1"
+        self.tmo = self.cfg.get("tmo", "n")
+        self.ops = []
+        self.rows = []
+        self.has_resize = False
+        self.has_close = False
+        labels = {}
+        next_id = self.init
+        for k, (a, o, sec) in enumerate(trace.steps):
+            ws = a.split()
+            if ws[0] == "start":
+                op = {"kind": ws[1], "spec": ws[2:], "obj": None, "start": k}
+                if ws[1] in ("uadd", "utryadd"):
+                    op["obj"] = str(next_id)
+                    next_id += 1
+                if ws[1] in ("uret", "utake"):
+                    op["obj"] = ws[2]
+                if ws[1] == "uclose":
+                    self.has_close = True
+                self.ops.append(op)
+                i = len(self.ops) - 1
+            else:
+                i = int(ws[1])
+            if o is None:
+                self.rows.append(None)
+                continue
+            d = parse_obs(o)
+            labels[i] = (d["lbl"], d["susp"] == "1")
+            self.rows.append({"k": k, "action": a, "section": sec, "op": i, "obs": d, "labels": dict(labels),
+                              "queue": parse_list(d["queue"]), "hands": parse_list(d["hands"]),
+                              "returned": parse_list(d["returned"]), "dropped": parse_list(d["dropped"]),
+                              "woken": parse_list(d["woken"]) or [], "ev": events(d), "known": next_id})
+
+
+def u_blocked_ok(run, row, bad):
+    d, k = row["obs"], row["k"]
+    for j, (lbl, susp) in row["labels"].items():
+        if not susp or str(j) in row["woken"]:
+            continue
+        kind = run.ops[j]["kind"]
+        if kind in ("uget", "uremove") and (d["permits"] != "0" or d["closed"] != "0"):
+            bad.append((k, f"get #{j} is blocked and was not woken although permits={d['permits']} closed={d['closed']}"))
+        if kind == "uadd" and (d["spermits"] != "0" or d["sclosed"] != "0"):
+            bad.append((k, f"add #{j} is blocked and was not woken although free slots={d['spermits']} closed={d['sclosed']}"))
+
+
+def mon_C05(run):
+    """unmanaged pool: conservation, max_size, add blocks iff full, status at rest"""
+    if not isinstance(run, URun):
+        return []
+    bad = []
+    prev = None
+    for row in run.rows:
+        if row is None:
+            continue
+        k, d = row["k"], row["obs"]
+        lists = row["queue"] + row["hands"] + row["returned"] + row["dropped"]
+        for x in set(lists):
+            if lists.count(x) > 1:
+                bad.append((k, f"object {x} is in two places: queue={row['queue']} hands={row['hands']} returned={row['returned']} dropped={row['dropped']}"))
+        unfinished = [(j, lbl) for j, (lbl, _) in row["labels"].items() if lbl != "done"]
+        holders = set()
+        for j, lbl in unfinished:
+            op = run.ops[j]
+            if op["obj"] is not None:
+                holders.add(op["obj"])
+        free_holders = sum(1 for j, lbl in unfinished if lbl in ("uget.available", "utake.add_permits"))
+        missing = [str(x) for x in range(row["known"]) if str(x) not in lists and str(x) not in holders]
+        if len(missing) > free_holders:
+            bad.append((k, f"objects {missing} are nowhere (not queued, held, handed back or dropped, and no operation can be holding them)"))
+        if row["dropped"] and d["closed"] == "0":
+            bad.append((k, f"objects {row['dropped']} were dropped while the pool is open"))
+        in_pool = len(row["queue"]) + len(row["hands"])
+        if in_pool > run.max0:
+            bad.append((k, f"{in_pool} objects in the pool > max_size {run.max0}"))
+        u_blocked_ok(run, row, bad)
+        for e in row["ev"]:
+            name, args = ev_args(e)
+            if name == "result" and prev is not None:
+                op = run.ops[int(args[0])]
+                if op["kind"] == "utryadd" and args[1].startswith("timeout") and prev["obs"]["spermits"] != "0":
+                    bad.append((k, f"try_add reported Timeout although {prev['obs']['spermits']} slots were free"))
+                if op["kind"] in ("utryadd", "uadd") and (args[1].startswith("timeout") or args[1].startswith("closed")):
+                    if args[1].split(":")[1] != op["obj"]:
+                        bad.append((k, f"a refused add did not hand its object {op['obj']} back: {e}"))
+            if name == "status":
+                mx, size, avail, waiting = (int(x) for x in args[1:5])
+                i = row["op"]
+                others = {j: v for j, v in row["labels"].items() if j != i}
+                at_rest = all(lbl == "done" or (susp and str(j) not in row["woken"] and run.ops[j]["kind"] in ("uget", "uremove"))
+                              for j, (lbl, susp) in others.items())
+                if at_rest and d["closed"] == "0":
+                    blocked = sum(1 for j, (lbl, _) in others.items() if lbl != "done")
+                    want = (run.max0, in_pool, len(row["queue"]), blocked)
+                    if (mx, size, avail, waiting) != want:
+                        bad.append((k, f"status() at rest = (max_size {mx}, size {size}, available {avail}, waiting {waiting}) but ground truth is {want}"))
+        prev = row
+        if bad:
+            return bad[:1]
+    return bad[:1]
+
+
+def mon_C12(run):
+    """unmanaged pool: no panic; close() is final"""
+    if not isinstance(run, URun):
+        return []
+    bad = []
+    close_done = None
+    for row in run.rows:
+        if row is None:
+            continue
+        k, d, i = row["k"], row["obs"], row["op"]
+        if run.ops[i]["kind"] == "uclose" and d["lbl"] == "done" and close_done is None:
+            close_done = k
+            for j, (lbl, susp) in row["labels"].items():
+                if susp and str(j) not in row["woken"]:
+                    bad.append((k, f"close() returned but waiting call #{j} was not woken"))
+        for e in row["ev"]:
+            name, args = ev_args(e)
+            if name == "oppanic":
+                bad.append((k, f"call #{args[0]} ({run.ops[int(args[0])]['kind']}) panicked"))
+            if name == "result":
+                r = args[1].split(":")[0]
+                if r not in ("ok", "added", "timeout", "closed", "no_runtime", "cancelled"):
+                    bad.append((k, f"undocumented result {e}"))
+                op = run.ops[int(args[0])]
+                if close_done is not None and op["start"] > close_done:
+                    if op["kind"] in ("uget", "utryget", "uremove", "utryremove") and r not in ("closed", "no_runtime"):
+                        bad.append((k, f"{op['kind']} started after close() returned and ended with {args[1]}"))
+                    if op["kind"] in ("uadd", "utryadd") and args[1] != f"closed:{op['obj']}":
+                        bad.append((k, f"{op['kind']} started after close() returned and ended with {args[1]} instead of handing object {op['obj']} back with Closed"))
+        if d["closed"] == "1" and all(lbl == "done" for lbl, _ in row["labels"].values()) and row["queue"]:
+            bad.append((k, f"closed pool at rest still holds objects {row['queue']}"))
+        op = run.ops[i]
+        if close_done is not None and op["kind"] == "uret" and op["start"] > close_done and d["lbl"] == "done":
+            if op["obj"] not in row["dropped"]:
+                bad.append((k, f"object {op['obj']} returned after close() was not dropped"))
+        if d.get("fault") != "0":
+            bad.append((k, "fault"))
+        u_blocked_ok(run, row, bad)
+        if bad:
+            return bad[:1]
+    return bad[:1]
+
+
 def signature(prop, run, model_lines, diverged, k, msg, kind):
     """known-finding signature of a violation, or '' (see known_findings.txt).  A violation is
     attributed to a known finding only if the model of the pinned code reproduces the whole
@@ -917,4 +1070,4 @@ def mon_C08(run):
     return bad[:1]
 
 
-MONITORS = {"C08": mon_C08, "C13": mon_C13, "C04": mon_C04, "C07": mon_C07, "C06": mon_C06, "C09": mon_C09, "C03": mon_C03, "C10": mon_C10, "C01": mon_C01, "C02": mon_C02, "C11": mon_C11}
+MONITORS = {"C05": mon_C05, "C12": mon_C12, "C08": mon_C08, "C13": mon_C13, "C04": mon_C04, "C07": mon_C07, "C06": mon_C06, "C09": mon_C09, "C03": mon_C03, "C10": mon_C10, "C01": mon_C01, "C02": mon_C02, "C11": mon_C11}
